@@ -348,37 +348,50 @@ def relative_ctx(ctx, base):
 # ---- C07 template rules ---------------------------------------------------------------------------
 
 def struct_emitters(X):
-    """The functions that write a whole `pub struct .. { .. }`: their stream (writer helpers inlined) opens a struct and closes it
-    again, and the opening line comes from the function itself or from a helper that does not write a whole struct on its own
-    (`write_struct_header`). A function that merely calls such an emitter is not one."""
+    """The functions in whose text a struct is read: the innermost function whose stream (writer helpers inlined) holds the whole
+    group — `pub struct N {` .. `}` and, when there is one, the `impl CheckRestrictions for N` written through the header / footer
+    helpers. A helper that writes only the definition (the impl being written by a sibling helper of the same caller) is read in the
+    caller; a function that merely calls a function holding whole groups is not an emitter itself."""
     if getattr(X, "_struct_emitters", None) is not None:
         return X._struct_emitters
-    complete = {}
-    streams = {}
+    streams, level = {}, {}
     for fn in X.events:
         try:
-            evs = [e for e in inline(X, fn) if e.kind == "emit"]
+            evs = list(inline(X, fn))
         except og.Unrecognised:
             continue
         streams[fn] = evs
-        opened = False
-        done = False
+        # 0: no whole struct, 1: struct definition(s) only, 2: every struct definition is followed by its impl block
+        state, n_open, n_impl = "idle", 0, 0
         for e in evs:
-            sk = e.skeleton()
-            if RE_STRUCT_OPEN.match(sk):
-                opened = True
-            elif opened and sk.strip() == "}":
-                done = True
-                break
-        complete[fn] = done
+            if e.kind == "emit":
+                sk = e.skeleton()
+                if state in ("idle", "closed") and RE_STRUCT_OPEN.match(sk):
+                    state = "open"
+                    n_open += 1
+                elif state == "open" and sk.strip() == "}":
+                    state = "closed"
+            elif e.kind == "call" and e.callee == HDR and state == "closed":
+                state = "impl"
+            elif e.kind == "call" and e.callee == FTR and state == "impl":
+                state = "idle"
+                n_impl += 1
+        whole = n_open > 0 and state in ("idle", "closed")
+        level[fn] = 0 if not whole else (2 if n_impl == n_open else 1)
+
+    def opens(fn):
+        return [e for e in streams[fn] if e.kind == "emit" and RE_STRUCT_OPEN.match(e.skeleton())]
     out = []
-    for fn, evs in streams.items():
-        if not complete.get(fn):
-            continue
-        for e in evs:
-            if RE_STRUCT_OPEN.match(e.skeleton()) and not any(complete.get(c) for c in e.chain[1:]):
-                out.append(fn)
-                break
+    for fn in streams:
+        if level[fn] == 2 and any(not any(level.get(c) == 2 for c in e.chain[1:]) for e in opens(fn)):
+            out.append(fn)
+    covered = set()
+    for fn in out:
+        for e in streams[fn]:
+            covered |= set(e.chain)
+    for fn in streams:
+        if level[fn] == 1 and fn not in covered and any(not any(level.get(c, 0) >= 1 for c in e.chain[1:]) for e in opens(fn)):
+            out.append(fn)     # structs without a check impl (the service client)
     # an emitter whose whole text another emitter takes in (a private helper writing one of the caller's structs, handed the
     # names as parameters) is read in that caller's stream, where its parameters have values, and not on its own
     called = set()
